@@ -24,6 +24,18 @@ def handleLine (line : String) : String :=
       id ++ "\t" ++ showM (if k.isAsync && k.isTry then specRunAT (mkWorld w) (some "main") p k
                             else specRun (mkWorld w) (some "main") p k)
     | _, _, _ => id ++ "\tbadinput"
+  | ["SPECU", id, kind, struct, world] =>      -- the caller's thread has no name
+    match Kind.ofString kind, parseInput struct, parseWorld world with
+    | some k, some p, some w =>
+      id ++ "\t" ++ showM (if k.isAsync && k.isTry then specRunAT (mkWorld w) none p k else specRun (mkWorld w) none p k)
+    | _, _, _ => id ++ "\tbadinput"
+  | ["RUNU", id, kind, struct, world] =>
+    match Kind.ofString kind, parseInput struct, parseWorld world with
+    | some k, some p, some w =>
+      match gen p k with
+      | .ok c => id ++ "\t" ++ showM (evalCode (mkWorld w) none c)
+      | .error e => id ++ "\tgenerr:" ++ e.name
+    | _, _, _ => id ++ "\tbadinput"
   | ["RUN", id, kind, struct, world] =>
     match Kind.ofString kind, parseInput struct, parseWorld world with
     | some k, some p, some w =>
